@@ -37,6 +37,9 @@ Definition guard_table : list (string * list string) := [
   (* internal/querylog/qlog.go: "confMu protects conf", "bufferLock protects buffer" *)
   ("querylog.queryLog.conf", ["querylog.queryLog.confMu"; "home.homeContext.controlLock"]);
   ("querylog.queryLog.buffer", ["querylog.queryLog.bufferLock"]);
+  ("querylog.queryLog.flushPending", ["querylog.queryLog.bufferLock"]);
+  ("querylog.queryLog.logFile", ["querylog.queryLog.confMu"]);
+  ("querylog.queryLog.findClient", ["querylog.queryLog.confMu"]);
   (* internal/dhcpd/v4_unix.go: "leasesLock protects leases, hostsIndex, ipIndex, and leasedOffsets" *)
   ("dhcpd.v4Server.leases", ["dhcpd.v4Server.leasesLock"]);
   ("dhcpd.v4Server.hostsIndex", ["dhcpd.v4Server.leasesLock"]);
@@ -88,7 +91,19 @@ Definition guard_table : list (string * list string) := [
   ("filtering.Config.BlockedServices", ["filtering.DNSFilter.confMu"]);
   ("filtering.Config.Rewrites", ["filtering.DNSFilter.confMu"]);
   ("filtering.Config.SafeBrowsingBlockHost", ["filtering.DNSFilter.confMu"]);
-  ("filtering.Config.ParentalBlockHost", ["filtering.DNSFilter.confMu"])
+  ("filtering.Config.ParentalBlockHost", ["filtering.DNSFilter.confMu"]);
+  (* the remaining Config fields (EtcHosts, DataDir, cache sizes, ConfigModified,
+     HTTPClient ...) are set once; WriteDiskConfig's `*c = *d.conf` (c aliases
+     d.conf) rewrites them with their own values, which the race detector does
+     report against every unlocked read.  That single defect is listed under
+     the WriteDiskConfig$1 keys; the fields are left out of the map so that it
+     is not repeated once per reader. *)
+  ("filtering.DNSFilter.conf", ["filtering.DNSFilter.confMu"]);
+  ("filtering.DNSFilter.safeSearch", ["filtering.DNSFilter.confMu"]);
+  ("filtering.DNSFilter.hostCheckers", ["filtering.DNSFilter.confMu"]);
+  ("stats.StatsCtx.filename", ["stats.StatsCtx.confMu"]);
+  ("stats.StatsCtx.shouldCountClient", ["stats.StatsCtx.confMu"]);
+  ("stats.StatsCtx.unitIDGen", ["stats.StatsCtx.confMu"])
 ].
 
 (** Method names that modify their receiver: a call of such a method on a value
